@@ -106,8 +106,8 @@ def run(ctx):
     gen(targets, "chain", pd=1)
     if not q:
         # random walks by TLC's simulator (all candidate successors are evaluated and emitted)
-        gen(faces, "sim", pd=1, simulate="num=40", depth=32, seed=ctx.seed * 10 + 1, timeout=1500)
-        gen(faces, "edge", pd=1, simulate="num=40", depth=32, seed=ctx.seed * 10 + 2, timeout=1500)
+        gen(faces, "sim", pd=1, simulate="num=25", depth=32, seed=ctx.seed * 10 + 1, timeout=1500)
+        gen(faces, "edge", pd=1, simulate="num=25", depth=32, seed=ctx.seed * 10 + 2, timeout=1500)
 
     uniq = {}
     for c in cases:
